@@ -22,16 +22,33 @@ def ProxCons (P : Problem α) (i : Iterate α) : Prop :=
   i.hxhat = (P.prox i.gamma i.x i.gradPsi).1 ∧ i.xhat = (P.prox i.gamma i.x i.gradPsi).2.1 ∧
   i.p = (P.prox i.gamma i.x i.gradPsi).2.2
 
-/-- `ŷx̂` is the ψ oracle's answer at `x̂` (in eager mode ŷx̂ is only a workspace). -/
+/-- Internal consistency of the problem's oracles, as the library's own `eval_ψ_grad_ψ` has it:
+    after `eval_ψ_grad_ψ(x, …, grad, work_n, work_m)` the workspace `work_m` holds `ŷ(x)` — what
+    `eval_ψ` returns — and `grad = ∇L(x, ŷ(x))` — what `eval_grad_L(x, ŷ(x))` returns. -/
+def OracleLaw (P : Problem α) : Prop :=
+  ∀ x, (P.psiGradPsi x).2.2 = (P.psi x).2 ∧ (P.psiGradPsi x).2.1 = P.gradL x (P.psi x).2
+
+/-- Lazy gradient evaluation (the default), or eager evaluation with consistent oracles. -/
+def YhatMode (P : Problem α) (pr : Params α) : Prop :=
+  pr.eagerGradientEval = false ∨ OracleLaw P
+
+/-- `ŷx̂` is the ψ oracle's answer at `x̂` (in eager mode ŷx̂ is the workspace of `eval_ψ_grad_ψ`: only
+    for consistent oracles is that `ŷ`). -/
 def YhatCons (P : Problem α) (pr : Params α) (i : Iterate α) : Prop :=
-  pr.eagerGradientEval = false → i.yhat = (P.psi i.xhat).2
+  YhatMode P pr → i.yhat = (P.psi i.xhat).2
 
 def Good (P : Problem α) (pr : Params α) (i : Iterate α) : Prop := ProxCons P i ∧ YhatCons P pr i
 
 theorem good_evalStep (P : Problem α) (pr : Params α) (i : Iterate α) :
     Good P pr (evalPsiHat P pr (evalProxGradStep P i)) := by
-  unfold Good ProxCons YhatCons evalPsiHat evalProxGradStep
-  by_cases h : pr.eagerGradientEval <;> simp [h]
+  unfold Good ProxCons YhatCons YhatMode evalPsiHat evalProxGradStep
+  by_cases h : pr.eagerGradientEval
+  · simp only [h, if_true]
+    refine ⟨by simp, fun hm => ?_⟩
+    rcases hm with hl | hlaw
+    · exact absurd hl (by simp)
+    · exact (hlaw _).1
+  · simp [h]
 
 /-- Changing only `∇ψ(x̂)` / its flag keeps the iterate good. -/
 theorem good_of_same (P : Problem α) (pr : Params α) (i j : Iterate α) (h : Good P pr i)
@@ -202,7 +219,7 @@ theorem exitBlock_ok (P : Problem α) (pr : Params α) (s : St α D) (eps : α) 
       exact ⟨⟨_, _, _, h.1.2.1⟩, by first | rfl | trivial, by first | rfl | trivial⟩
     · simp only [he, Bool.false_eq_true, if_false]
       refine ⟨⟨_, _, _, h.1.2.1⟩, ?_, by first | rfl | trivial⟩
-      exact h.2 (by simpa using he)
+      exact h.2 (Or.inl (by simpa using he))
   · intro hw
     simp only [hw, Bool.false_eq_true, if_false, Bool.false_and]
     exact ⟨by first | rfl | trivial, by first | rfl | trivial, by first | rfl | trivial⟩
